@@ -215,3 +215,18 @@ Theorem C01_extension_walk : forall es, Forall ext_ok es -> forall fuel pre post
   ext_walk fuel (pre ++ enc_exts es ++ post) (len pre) (len pre + len (enc_exts es)) acc = fold_left dict_add es acc.
 Proof. exact ext_walk_spec. Qed.
 Print Assumptions C01_extension_walk.
+
+(* from the ServerHello to the decryptor, TLS 1.3: the suite resolves to an AEAD algorithm, the key log has lines for this client
+   random and the derivation yields all eight values (C15_tls13: each is HKDF-Expand-Label of the last line with its label): the
+   session gets the decryptor that C01_tls13_connection starts from *)
+Theorem C01_tls13_keys_installed : forall C tbl parts keylog s suite sr cs a kl k x xs chk chi shk shi cak cai sak sai,
+  SuiteParser.split_cipher_suite tbl parts (from_be suite) = Some cs -> algo_of cs = Some a -> (a = AESGCM \/ a = AESCCM \/ a = ChaCha20Poly1305) ->
+  s_keylen cs = Some kl -> find_session_secrets keylog s = x :: xs -> dev_tls_13_keys C (x :: xs) kl (s_mac cs) = Ok k ->
+  client_hs_key k = Some chk -> client_hs_iv k = Some chi -> server_hs_key k = Some shk -> server_hs_iv k = Some shi ->
+  client_app_key k = Some cak -> client_app_iv k = Some cai -> server_app_key k = Some sak -> server_app_iv k = Some sai ->
+  exists d, generate_keys C tbl parts keylog s TLS13 suite sr = Ok (set_dec s (Some d)) /\ class13 a d /\ d_tag_length d = s_tag cs /\
+            cur_key d true = Some shk /\ cur_iv d true = Some shi /\ cur_seq d true = 0 /\
+            cur_key d false = Some chk /\ cur_iv d false = Some chi /\ cur_seq d false = 0 /\
+            switch_ready d true sak sai /\ switch_ready d false cak cai.
+Proof. exact tls13_keys_installed. Qed.
+Print Assumptions C01_tls13_keys_installed.
